@@ -22,7 +22,8 @@ LEVEL_TEXT = ("held on N generated proposal sets, each driven through all n! arr
               "interleaved; every returned target is checked against the system envelope and against the other "
               "histories of the same live set. Exploration of histories, not a proof of order independence.")
 LEVEL_NOTE = ("system bounds with lower <= 0 <= upper; exclusion zone contains 0; same-instant tie-break by source id "
-              "is part of the contract; power equality to 1e-6 W")
+              "is part of the contract; power equality to 1e-6 W"
+              " Build phase: plus a pool-handle tier (proposals as BatteryPool.propose_* builds them) and an actor tier (expiry, bursts, PowerWrapper wiring) through C11's driver.")
 RULE = ("random system bounds/exclusion zone x 1-6 proposals (priorities with ties, preferred power None/on a "
         "bound/inside the zone/outside the system bounds, bounds None/compatible/incompatible/inside the zone), "
         "arrival histories = permutations + stale replacements + None/bounds-only recomputations + expiry patterns. "
